@@ -1496,9 +1496,13 @@ func (fc *fnCtx) execInstr(st *State, instr ssa.Instruction) {
 		v := fc.get(st, x.Val)
 		l := fc.ptrLVal(addr)
 		fc.checkDeref(st, addr, l, x.Pos())
+		prevVal := ""
+		if a, ok := x.Addr.(*ssa.Alloc); ok {
+			prevVal = st.cells[a]
+		}
 		fc.writeLVal(st, l, fc.materialize(st, v))
 		if a, ok := x.Addr.(*ssa.Alloc); ok {
-			fc.afterStore(st, a, x)
+			fc.afterStore(st, a, x, prevVal)
 		}
 	case *ssa.UnOp:
 		fc.execUnOp(st, x)
@@ -2279,7 +2283,7 @@ func (fc *fnCtx) execSlice(st *State, x *ssa.Slice) {
 }
 
 // afterStore handles `assert after var#k` ghost assertions.
-func (fc *fnCtx) afterStore(st *State, a *ssa.Alloc, store *ssa.Store) {
+func (fc *fnCtx) afterStore(st *State, a *ssa.Alloc, store *ssa.Store, prevVal string) {
 	if fc.inline || fc.specMode || fc.contract == nil || len(fc.contract.Afters) == 0 {
 		return
 	}
@@ -2318,6 +2322,10 @@ func (fc *fnCtx) afterStore(st *State, a *ssa.Alloc, store *ssa.Store) {
 		var own map[string]Val
 		if v := st.cells[a]; v != "" {
 			own = map[string]Val{as.Var: {T: v, Ty: a.Type().(*types.Pointer).Elem()}}
+			// prev: the value the variable held just before this assignment
+			if prevVal != "" {
+				own["prev"] = Val{T: prevVal, Ty: a.Type().(*types.Pointer).Elem()}
+			}
 		}
 		env := fc.specEnv(st, own)
 		g, err := env.goal(as.Assert.Expr)
